@@ -589,3 +589,6 @@ func blockReach(start *ssa.BasicBlock, cut func(from *ssa.BasicBlock, succIdx in
 	}
 	return seen
 }
+
+func fmtT(v any) string  { return fmt.Sprintf("%T", v) }
+func fmtInt(i int) string { return fmt.Sprint(i) }
